@@ -26,7 +26,8 @@
 From Coq Require Import ZArith QArith Qminmax List.
 From VL Require Import Prelude.PyDict Model.GetNBest Model.Convert Model.Cardinal Proofs.Cardinal_proofs
      Proofs.MJ_proofs Proofs.JR_proofs Model.Condorcet Model.Star Proofs.Star_proofs
-     Model.Quota Model.AllocScore Proofs.AllocScore_proofs Proofs.MJ_removal_proofs Proofs.MJ_seats_proofs Proofs.Shape2_proofs Proofs.Star_seats_proofs Proofs.ScoreDict_proofs Proofs.Truncation_proofs.
+     Model.Quota Model.AllocScore Proofs.AllocScore_proofs Proofs.MJ_removal_proofs Proofs.MJ_seats_proofs Proofs.Shape2_proofs Proofs.Star_seats_proofs Proofs.ScoreDict_proofs Proofs.Truncation_proofs
+     Proofs.Repair_proofs Proofs.TruncRepair_proofs Proofs.MJ_repair_proofs Proofs.AllocRepair_proofs.
 From Coq Require Import Permutation.
 Import ListNotations.
 Close Scope Q_scope.
@@ -642,6 +643,212 @@ Proof.
   destruct (star_contest_all_or_none votes agg n) as [E|[E _]]; [left|right]; exact E.
 Qed.
 
+(* ================================================================ wave 6: the repaired score family
+   (fixes/C12-truncation-middle, C12-mj-default-exhausted, C12-score-counted, C12-allocated-score-exhausted,
+   C12-allocated-score-tie-seats).  Model/Cardinal.v [repairs] / Model/AllocScore.v [arepairs] flag the definitions: no
+   repair = the pinned definitions above (theorems C12_pinned_score_family, C12_pinned_allocated_score), all repairs = the code the correspondence runs against. *)
+Theorem C12_pinned_score_family : forall plus cf votes n,
+  score_voting_x pinned cf votes n = score_voting cf votes n /\
+  majority_judgment_x pinned plus cf votes n = majority_judgment plus cf votes n.
+Proof. intros. split; [reflexivity|apply majority_judgment_x_pinned]. Qed.
+
+Theorem C12_pinned_allocated_score : forall qs orders votes n prev mx,
+  alloc_distribute_x apinned qs orders votes n prev mx = alloc_distribute qs orders votes n prev mx /\
+  alloc_select_x apinned qs orders votes n = alloc_select qs orders votes n.
+Proof. intros. split; [apply alloc_distribute_x_pinned|apply alloc_select_x_pinned]. Qed.
+
+(* ---- fixes/C12-score-counted: the aggregates computed from the (score -> count) dictionary (util._counted_sum / _mean /
+   _middle) are the aggregates of the list with one element per voter - same rational, same representation, same
+   error - for every dictionary with counts >= 0 and numerically distinct scores; likewise the minimum for
+   unscored_value = 'min'.  Hence every theorem about [aggregate_one] speaks about the repaired code at any magnitude. *)
+Theorem C12_counted_aggregate : forall fn d, cs_okd d ->
+  aggregate_one_w fn d = aggregate_one fn d /\ list_min (pos_keys d) = list_min (expand d).
+Proof. intros fn d Hd. split; [exact (okd_counted fn d Hd)|apply list_min_counted]. Qed.
+
+Example C12_counted_example :
+  let d : cscores := [(3, 2000000000000%Z); (0, 1000000000000%Z); (2, 5%Z)]%Q in
+  aggregate_one_w FSum d = inl (6000000000010 # 1)%Q /\ aggregate_one_w FMean d = inl (2 # 1)%Q /\ aggregate_one_w FMedianLow d = inl 3%Q.
+Proof. vm_compute. repeat split; reflexivity. Qed.
+
+(* ---- fixes/C12-truncation-middle.  The cut-off is capped at (scores - 1) // 2 ([mid_cutoff]): on a well-formed dictionary
+   that holds a score the two sweeps remove exactly the c' lowest and the c' highest scores (c' the capped cut-off) and at
+   least one score stays *)
+Theorem C12_truncation_keeps_middle : forall d c, cs_okd d -> (1 <= cs_total d)%Z ->
+  let c' := mid_cutoff c (cs_total d) in
+  exists d2 d3, subtract_lowest d (sort_q (map fst d)) c' 0 = Some d2 /\ subtract_lowest d2 (rev (sort_q (map fst d))) c' 0 = Some d3 /\
+    cs_okd d3 /\ cs_total d3 = (cs_total d - 2 * c')%Z /\ (1 <= cs_total d3)%Z /\
+    (forall t, Z.of_nat (wcnt (lev t) d2) = Z.max 0 (Z.of_nat (wcnt (lev t) d) - c')) /\
+    (forall t, Z.of_nat (wcnt (gev t) d3) = Z.max 0 (Z.of_nat (wcnt (gev t) d2) - c')).
+Proof. exact truncation_keeps_middle. Qed.
+
+(* every configuration: a candidate that holds a score keeps one through min_count / unscored_value / truncation *)
+Theorem C12_corrections_keep_a_score : forall rp cf d n_votes, rp_trunc rp = true ->
+  cs_okd d -> (sc_unscored cf = UNone \/ (cs_total d <= n_votes)%Z) -> (1 <= cs_total d)%Z ->
+  exists d3, correct_scores_x rp cf d n_votes = inl d3 /\ cs_okd d3 /\ (1 <= cs_total d3)%Z.
+Proof. exact correct_scores_x_keeps. Qed.
+
+(* the repair does what the configuration says whenever that leaves a score (the capped cut-off is the configured one) *)
+Theorem C12_truncation_conservative : forall rp cf d n_votes d1,
+  cs_okd d -> (sc_unscored cf = UNone \/ (cs_total d <= n_votes)%Z) -> (0 <= n_votes)%Z ->
+  unscored_fill cf d n_votes = inl d1 -> (2 * trunc_cutoff cf d n_votes < cs_total d1)%Z ->
+  correct_scores_x rp cf d n_votes = correct_scores cf d n_votes.
+Proof. exact correct_scores_x_conservative. Qed.
+
+(* score voting answers: every configuration, every number of seats, every profile with positive ballot counts in
+   which no ballot scores a candidate twice - no ZeroDivisionError / StatisticsError / KeyError / ValueError *)
+Theorem C12_score_voting_answers : forall rp cf votes n, rp_trunc rp = true -> profile_pos votes ->
+  exists r, score_voting_x rp cf votes n = inl r.
+Proof. exact score_voting_x_answers. Qed.
+
+(* the pinned behaviour, for the record (known finding C12-truncation-empties, now fixed): {A:3} x 2, {B:1} x 5, truncation 2 *)
+Theorem C12_truncation_empties_pinned_refuted : exists votes,
+  let cf := Build_score_cfg FMean UNone 0 2 0 in
+  profile_pos votes /\
+  score_voting_x pinned cf votes 1 = inr SE_zerodiv /\ score_voting_x repaired cf votes 1 = inl [Cand 1%positive] /\
+  majority_judgment_x pinned false cf votes 1 = inr SE_stats /\ majority_judgment_x repaired false cf votes 1 = inl [Cand 1%positive].
+Proof.
+  exists [([(1%positive, 3%Q)], 2%Z); ([(2%positive, 1%Q)], 5%Z)]. split.
+  - intros bn [<-|[<-|[]]]; split; try reflexivity; repeat constructor; intros [].
+  - vm_compute. repeat split; reflexivity.
+Qed.
+
+(* ---- fixes/C12-mj-default-exhausted.  Reference order: the removal sequences (mj_seq) compared lexicographically where a
+   sequence that ENDS - the candidate has no grade left - is below one that goes on: [mj_lex_below d' d] = the sequences
+   agree before entry k, d has entry k, and d' has a strictly lower entry k or none at all.
+   The repaired tie-break for any number of seats: an answer holds no tie object, n distinct winners, and every winner is
+   above every candidate of the contest left out. *)
+Theorem C12_mj_exhausted_seats : forall rp fuel sub n r, rp_mj rp = true ->
+  NoDup (map fst sub) -> Forall cs_ok sub -> 1 <= n ->
+  mj_default_x rp fuel sub n = inl r ->
+  (forall x, In x r -> exists c, x = Cand c) /\ length r = n /\ NoDup r /\
+  (forall c d c' d', In (Cand c) r -> In (c, d) sub -> In (c', d') sub -> ~ In (Cand c') r -> mj_lex_below d' d).
+Proof.
+  intros rp fuel sub n r Hrp Hnd Hok Hn Hr.
+  destruct (mj_default_x_seats rp Hrp fuel sub n r (conj Hnd Hok) Hn Hr) as (H1 & H2).
+  destruct (mj_default_x_seats_count rp Hrp fuel sub n r (conj Hnd Hok) Hn Hr) as (H3 & H4). auto.
+Qed.
+
+(* the evaluator (default rule, every configuration, hypotheses on the ballots only) *)
+Theorem C12_mj_exhausted_rule : forall rp cf votes n sc r, rp_mj rp = true -> 1 <= n -> profile_ok votes ->
+  corrected_scores_x rp cf votes = inl sc ->
+  majority_judgment_x rp false cf votes n = inl r ->
+  (forall x, In x r -> exists c, x = Cand c) /\ length r = Nat.min n (length sc) /\ NoDup r /\
+  (forall c, In (Cand c) r -> In c (map fst sc)) /\
+  (forall c d c' d', In (Cand c) r -> In (c, d) sc -> In (c', d') sc -> ~ In (Cand c') r -> mj_lex_below d' d).
+Proof.
+  intros rp cf votes n sc r Hrp Hn Hv Hsc Hr.
+  exact (mj_x_default_rule rp cf votes n sc r Hrp Hn Hsc (corrected_scores_x_ok rp cf votes sc Hv Hsc) Hr).
+Qed.
+
+(* the order extends the one of C12_mj_seats_default; an exhausted candidate is below every candidate with a grade *)
+Theorem C12_mj_lex_below_extends : forall d' d,
+  (mj_lex_lt d' d -> mj_lex_below d' d) /\
+  (forall v, aggregate_one FMedianLow d = inl v -> cs_nonneg d' -> cs_total d' = 0%Z -> mj_lex_below d' d).
+Proof. intros d' d. split; [apply mj_lex_lt_below|intros v; apply mj_below_empty]. Qed.
+
+(* no StatisticsError any more: with the truncation and the tie-break repaired, majority judgment (either rule) answers or
+   refuses a lasting tie (VotingSystemError); SE_fuel is the model's own out-of-fuel mark *)
+Theorem C12_mj_no_crash : forall rp plus cf votes n, rp_trunc rp = true -> rp_mj rp = true -> 1 <= n -> profile_pos votes ->
+  match majority_judgment_x rp plus cf votes n with inl _ => True | inr e => e = SE_vse \/ e = SE_fuel end.
+Proof. exact majority_judgment_x_no_crash. Qed.
+
+(* the pinned behaviour, for the record (known finding C12-mj-default-stats, now fixed): {A:1} x 1, {B:1} x 3 - A runs out of
+   grades after one removal; and a lasting tie stays a refusal: {A:1,B:1} x 1, {C:1} x 2 -> C, and A / B for a second seat: VSE *)
+Theorem C12_mj_default_stats_pinned_refuted : exists votes votes',
+  let cf := Build_score_cfg FMedianLow UNone 0 0 0 in
+  profile_pos votes /\ profile_pos votes' /\
+  majority_judgment_x pinned false cf votes 1 = inr SE_stats /\ majority_judgment_x repaired false cf votes 1 = inl [Cand 2%positive] /\
+  majority_judgment_x repaired false cf votes' 1 = inl [Cand 3%positive] /\ majority_judgment_x repaired false cf votes' 2 = inr SE_vse.
+Proof.
+  exists [([(1%positive, 1%Q)], 1%Z); ([(2%positive, 1%Q)], 3%Z)],
+         [([(1%positive, 1%Q); (2%positive, 1%Q)], 1%Z); ([(3%positive, 1%Q)], 2%Z)]. split; [|split].
+  - intros bn [<-|[<-|[]]]; split; try reflexivity; repeat constructor; intros [].
+  - intros bn [<-|[<-|[]]]; split; try reflexivity; repeat constructor; cbn; intuition discriminate.
+  - vm_compute. repeat split; reflexivity.
+Qed.
+
+(* ---- fixes/C12-allocated-score-exhausted.  The subtraction loop without the overall-minimum bootstrap: on positive weights
+   it never fails and removes min(amount, support) from the strongest supporters first - whatever the ballots look like
+   (empty ballots, nothing left): the crash condition of C12_alloc_strongest_first is gone *)
+Theorem C12_alloc_strongest_first_repaired : forall c fuel cur ss, wpos cur -> (length cur < fuel)%nat -> (0 < ss)%Q ->
+  match fraction_out_r fuel cur c ss with
+  | inr _ => False
+  | inl cur' =>
+      exists t f, cur' = cut_at c t f cur /\ (0 <= f)%Q /\ (f < 1)%Q /\ (no_supporters c cur \/ has_score c cur t) /\
+                  (wtotal cur' == wtotal cur - Qmin ss (asupport c cur))%Q
+  end.
+Proof. exact fraction_out_r_spec. Qed.
+
+(* a round of the repaired loop without a tie: the winner is strictly greatest among the candidates still scored - or, when
+   no remaining ballot scores anybody, the ONLY candidate that may still gain a seat - and one quota (or all they hold)
+   leaves its strongest supporters *)
+Theorem C12_alloc_round_repaired : forall ra cands cf cur el rem c rest, ra_exhausted ra = true -> NoDup cands ->
+  wpos cur -> (0 < ac_quota cf)%Q -> (0 < rem)%nat ->
+  get_n_best Qle_bool (round_scores ra cands cf cur el) 1 = Cand c :: rest ->
+  ((sum_scores cur <> [] -> scored c cur /\ forall d, scored d cur -> d <> c -> (wscore cur d < wscore cur c)%Q) /\
+   (sum_scores cur = [] -> In c cands /\ may_gain cf el c = true /\ forall d, In d cands -> may_gain cf el d = true -> d = c)) /\
+  exists cur', alloc_step_x ra cands cf cur el rem = AS_next cur' (eincr el c) (rem - 1) /\
+    exists mid, removal_spec c (ac_quota cf) cur mid /\
+                cur' = (if eliminated (gained_of cf el c) (dget (ac_max cf) c) then subset_out c mid else mid) /\
+                (wtotal cur' == wtotal cur - Qmin (ac_quota cf) (asupport c cur))%Q /\ wpos cur'.
+Proof. exact alloc_round_x. Qed.
+
+(* no error outcome: distributor (any prev_gains / max_seats) and selector answer for every profile with positive weights
+   and a positive quota (Hare / Droop of a non-empty electorate: C12_alloc_quota_positive) *)
+Theorem C12_alloc_answers : forall ra qs orders votes n prev mx, ra_exhausted ra = true ->
+  wpos votes -> (0 < ac_quota (alloc_cfg qs orders votes n prev mx))%Q ->
+  quota_divides_by_seats qs && Nat.eqb n 0 = false ->
+  (exists el, alloc_distribute_x ra qs orders votes n prev mx = inl el) /\
+  (prev = [] -> mx = map (fun c => (c, 1%Z)) (all_scored votes) -> exists r, alloc_select_x ra qs orders votes n = inl r).
+Proof.
+  intros ra qs orders votes n prev mx Hra Hp Hq Hz. split; [exact (alloc_distribute_x_answers ra Hra qs orders votes n prev mx Hp Hq Hz)|].
+  intros -> ->. exact (alloc_select_x_answers ra Hra qs orders votes n Hp Hq Hz).
+Qed.
+
+(* ... and whatever the pinned distributor answered, the repaired one answers the same *)
+Theorem C12_alloc_conservative : forall ra qs orders votes n prev mx e,
+  alloc_distribute qs orders votes n prev mx = inl e -> alloc_distribute_x ra qs orders votes n prev mx = inl e.
+Proof. exact alloc_distribute_x_conservative. Qed.
+
+(* the recorded crash witnesses answer now; a candidate that no remaining ballot scores stands at zero *)
+Example C12_alloc_repaired_example :
+  alloc_select_x arepaired (QNamed 1) [] w_crash 2 = inl [Cand 1%positive; Cand 2%positive] /\
+  alloc_select (QNamed 1) [] w_crash 2 = inr AE_value /\
+  alloc_select_x arepaired (QNamed 1) [] [(b1 [(1%positive, 5%Z); (2%positive, 1%Z)], 1%Q); (b1 [(1%positive, 4%Z)], 3%Q)] 2
+    = inl [Cand 1%positive; Cand 2%positive] /\
+  alloc_select_x arepaired (QNamed 1) [] w_tie3 2 = inl [TieR [1; 2; 3]%positive; TieR [1; 2; 3]%positive].
+Proof. vm_compute. repeat split; reflexivity. Qed.
+
+(* ---- the repairs change no answer the pinned code gave (every set of repairs [rp]): score voting by mean / low median,
+   majority judgment with either rule - wherever the pinned evaluator answered, the repaired one returns the same list.
+   (The sum of a candidate whose scores the truncation wiped out was 0 and is now the sum of its middle scores: the one
+   answer that changes, C11_scale_score_truncation_sum_capped_refuted.) *)
+Theorem C12_score_family_conservative : forall rp plus cf votes n r, profile_ok votes -> 1 <= n ->
+  (sc_fn cf <> FSum -> score_voting cf votes n = inl r -> score_voting_x rp cf votes n = inl r) /\
+  (majority_judgment plus cf votes n = inl r -> majority_judgment_x rp plus cf votes n = inl r).
+Proof.
+  intros rp plus cf votes n r Hv Hn. split.
+  - intros Hfn. exact (score_voting_x_conservative rp cf votes n r Hv Hfn).
+  - exact (majority_judgment_x_conservative rp plus cf votes n r Hv Hn).
+Qed.
+
+(* the tie-break itself: wherever the pinned loop does not end in StatisticsError the repaired loop does the same *)
+Theorem C12_mj_tiebreak_conservative : forall rp fuel sub n, NoDup (map fst sub) -> Forall cs_ok sub -> 1 <= n <= length sub ->
+  mj_default fuel sub n <> inr SE_stats -> mj_default_x rp fuel sub n = mj_default fuel sub n.
+Proof. intros rp fuel sub n Hnd Hok Hn. exact (mj_default_x_conservative rp fuel sub n (conj Hnd Hok) Hn). Qed.
+
+(* ---- the fuel of the repaired tie-break is enough: the number of scores held by the candidates of the contest goes down in
+   every pass (a seated candidate leaves with its scores; a shared lead costs every level candidate at least one), so the loop
+   started with that number + 1 never runs out; the evaluator hands over that number + 2.  Hence the sharp form of
+   C12_mj_no_crash: majority judgment ANSWERS or refuses a lasting tie (VotingSystemError) - nothing else, SE_fuel included *)
+Theorem C12_mj_fuel_sufficient : forall rp fuel sub n, rp_mj rp = true -> NoDup (map fst sub) -> Forall cs_ok sub ->
+  (Z.to_nat (stot sub) < fuel)%nat -> mj_default_x rp fuel sub n <> inr SE_fuel.
+Proof. intros rp fuel sub n Hrp Hnd Hok. exact (mj_default_x_fuel rp Hrp fuel sub n (conj Hnd Hok)). Qed.
+
+Theorem C12_mj_answers_or_refuses : forall rp plus cf votes n, rp_trunc rp = true -> rp_mj rp = true -> 1 <= n -> profile_pos votes ->
+  match majority_judgment_x rp plus cf votes n with inl _ => True | inr e => e = SE_vse end.
+Proof. exact majority_judgment_x_answers_or_refuses. Qed.
+
 Print Assumptions C12_combinations_complete.
 Print Assumptions C12_combinations_sound.
 Print Assumptions C12_pav_optimal.
@@ -690,3 +897,24 @@ Print Assumptions C12_mj_seats_default_wf.
 Print Assumptions C12_score_truncation.
 Print Assumptions C12_score_corrections.
 Print Assumptions C12_star_short_class.
+Print Assumptions C12_pinned_score_family.
+Print Assumptions C12_pinned_allocated_score.
+Print Assumptions C12_counted_aggregate.
+Print Assumptions C12_truncation_keeps_middle.
+Print Assumptions C12_corrections_keep_a_score.
+Print Assumptions C12_truncation_conservative.
+Print Assumptions C12_score_voting_answers.
+Print Assumptions C12_truncation_empties_pinned_refuted.
+Print Assumptions C12_mj_exhausted_seats.
+Print Assumptions C12_mj_exhausted_rule.
+Print Assumptions C12_mj_lex_below_extends.
+Print Assumptions C12_mj_no_crash.
+Print Assumptions C12_mj_default_stats_pinned_refuted.
+Print Assumptions C12_alloc_strongest_first_repaired.
+Print Assumptions C12_alloc_round_repaired.
+Print Assumptions C12_alloc_answers.
+Print Assumptions C12_alloc_conservative.
+Print Assumptions C12_score_family_conservative.
+Print Assumptions C12_mj_tiebreak_conservative.
+Print Assumptions C12_mj_fuel_sufficient.
+Print Assumptions C12_mj_answers_or_refuses.
